@@ -193,7 +193,7 @@ def is_id(t, text=None):
 MODULE_NAMES = {'commands', 'queries', 'helpers', 'manager', 'liquidity', 'swap', 'router', 'farm', 'position', 'state',
                 'contract', 'math', 'perform_swap', 'mantra_dex_std', 'lp_common', 'tokenfactory', 'coin', 'common',
                 'epoch_manager', 'farm_manager', 'pool_manager', 'fee', 'create_denom', 'mint', 'burn', 'utils', 'constants',
-                'crate', 'error', 'update_config'}
+                'crate', 'error', 'update_config', 'cosmwasm_std', 'cw_storage_plus'}
 
 
 ITER_ADAPTERS = {'position', 'any', 'all', 'find', 'max', 'min'}
